@@ -127,6 +127,8 @@ def run_history(exe, calls, sandbox_root, hid, setup=(), argv=(), env=(), ls_aft
         if c.get("fault"):
             lines.append("inject %s %d" % (c["family"], getattr(errno_mod, c["fault"])))
         # (where the guest keeps the path is its own business: now and then its last byte is the last byte of linear memory)
+        if c["call"] in ("read", "pread", "write", "pwrite"):
+            lines.append("iovlayout %d" % c.get("iovlayout", 0))
         if c.get("path_at_end") is not None:
             lines.append("pathsatend %d" % (1 if c["path_at_end"] else 0))
         lines.append(script_line(c, sb))
@@ -201,8 +203,12 @@ def expected_writes(c, m, sandbox, order="little"):
     elif k in ("read", "pread"):
         put(R1, le_(o["n"], 4))
         stride = 0x10 if len(c.get("lens", [])) > 16 else 0x100
+        lens_, lay, at = c.get("lens", []), c.get("iovlayout", 0), RBUF
         for j, buf in enumerate(o["bufs"]):
-            put(RBUF + stride * j, buf)
+            # (the driver's segment placement, see "iovlayout" there)
+            ptr = at if lay == 1 else (RBUF + stride * (j + 1)) if (lay == 2 and lens_[j] == 0 and j + 1 < len(lens_)) else RBUF + stride * j
+            at += lens_[j] if j < len(lens_) else 0
+            put(ptr, buf)
     elif k in ("seek", "tell"):
         put(R1, sc(o["off"]))
     elif k == "filestat":
